@@ -318,6 +318,21 @@ def _delay_replay(m, ob):
                         except Exception as e:
                             bad.append(f"{dist}/{deg.name}/prob={prob}/runtime={rt}/seed={seed}: {type(e).__name__}: {e}")
                             continue
+                        try:
+                            # the planners give every task copy.copy(model): a (shallow) copy whose seed or degree is then
+                            # changed must behave like a fresh model with those values
+                            import copy as _copy
+                            for seed2, deg2 in ((seed + 11, deg), (seed, D.HIGH if deg is not D.HIGH else D.LOW)):
+                                cp = _copy.copy(dm)
+                                cp.seed, cp.degree = seed2, deg2
+                                fresh = DelayModel(prob, dist, deg2, seed=seed2)
+                                x, y = cp.generate_delay(rt), fresh.generate_delay(rt)
+                                if x != y:
+                                    bad.append(f"{dist}/{deg.name}/prob={prob}/runtime={rt}/seed={seed}: a copy re-seeded to seed={seed2}, degree={deg2.name} "
+                                               f"gives {x}, a fresh model with the same seed and arguments gives {y} (not the same seed and arguments -> same result)")
+                                    break
+                        except Exception as e:
+                            bad.append(f"{dist}/{deg.name}/prob={prob}/runtime={rt}/seed={seed}: {type(e).__name__}: {e}")
                         if a < rt:
                             bad.append(f"{dist}/{deg.name}/prob={prob}/runtime={rt}/seed={seed}: shortened to {a}")
                         if a != b:
@@ -329,7 +344,7 @@ def _delay_replay(m, ob):
     if mm:
         sel = [b for b in bad if mm.group(1) in b]
     elif 'deterministic' in ob:
-        sel = [b for b in bad if 'same seed' in b]
+        sel = [b for b in bad if 'same seed' in b and 'Error' not in b]
     elif 'shortens' in ob or 'not-below' in ob:
         sel = [b for b in bad if 'shortened' in b]
     else:
